@@ -4,6 +4,7 @@ package ucon
 // (control skeleton: the float64 binomial CDF is a monotone uninterpreted function).
 
 import (
+	"bytes"
 	"errors"
 	"math/big"
 
@@ -222,5 +223,50 @@ func zzH_C04_priority() {
 	zzverif.Assert(isOne, "the priority is one of the per-seat hashes")
 	// known finding: a proposer that won zero seats still passes (no j > 0 test as in VrfVerifySortition)
 	zzverif.AssertKF(sub > 0, "a proposer credential needs at least one seat", "C04-zero-seat-proposer", sub == 0)
+	zzverif.Reach("end")
+}
+
+// ---- every seat has its own hash input, for committee-sized seat counts ----
+
+var zzC04Inputs [][]byte
+
+// recording stand-in for keccak: an injective, concrete function of the seat suffix
+func zzC04RecKeccak(data ...[]byte) common.Hash {
+	var in []byte
+	for _, d := range data {
+		in = append(in, d...)
+	}
+	zzC04Inputs = append(zzC04Inputs, in)
+	n := len(zzC04Inputs) - 1
+	return common.Hash{byte((n * 37) % 251), byte(n >> 16), byte(n >> 8), byte(n)}
+}
+
+// zzH_C04_priority_seats: computePriority hashes value||i for exactly the seats i = 0..j, the
+// seat index in its minimal big-endian form (so no two seats share an input), and returns the
+// largest of those hashes - for seat counts up to committee size.
+//
+//verif:replace $M/crypto.Keccak256Hash zzC04RecKeccak
+func zzH_C04_priority_seats() {
+	zzC04Inputs = nil
+	var value common.Hash
+	copy(value[:], zzverif.Bytes("vrfValue", 32))
+	js := []int64{0, 1, 255, 256, 257, 600}
+	if zzverif.Thorough() {
+		js = append(js, 65536, 70000)
+	}
+	j := js[zzverif.Choose("seats", len(js))]
+	zzverif.Bound("seatsMax", 600, 70000)
+	got := computePriority(value, big.NewInt(j))
+	zzverif.Assert(int64(len(zzC04Inputs)) == j+1, "one hash per seat 0..j")
+	var best common.Hash
+	for i, in := range zzC04Inputs {
+		want := append(append([]byte(nil), value[:]...), new(big.Int).SetUint64(uint64(i)).Bytes()...)
+		zzverif.Assert(bytes.Equal(in, want), "seat i is hashed as value || minimal big-endian i (distinct seats, distinct inputs)")
+		h := common.Hash{byte((i * 37) % 251), byte(i >> 16), byte(i >> 8), byte(i)}
+		if new(big.Int).SetBytes(h[:]).Cmp(new(big.Int).SetBytes(best[:])) > 0 {
+			best = h
+		}
+	}
+	zzverif.Assert(got == best, "the priority is the largest per-seat hash")
 	zzverif.Reach("end")
 }
